@@ -428,6 +428,14 @@ func (ip *Interp) regReflectModel() {
 		}
 		panic(unsupported("reflect model: Float of a non-constant value"))
 	})
+	ip.reg("(reflect.Value).Bytes", func(ip *Interp, fr *frame, a []Value) Value {
+		rv := rvOf(a[0])
+		if u, ok := underlyingOrNil(rv.t).(*types.Slice); ok && reflectKind(u.Elem()) == 8 {
+			return rv.v
+		}
+		ip.rtPanic("reflect: call of reflect.Value.Bytes on a Value that is not a byte slice")
+		return nil
+	})
 	ip.reg("(reflect.Value).String", func(ip *Interp, fr *frame, a []Value) Value {
 		rv := rvOf(a[0])
 		if rv.t == nil {
